@@ -17,7 +17,7 @@ limit; `push` returns a guard for the extended path, or Err once the path is lon
 model expresses as "the receiver is unchanged by push" (the returned guard mutably borrows the receiver, so it cannot be observed in between).
 Listed rewrites: `for v in map.values()` -> the index loop it desugars to; `seen.first() == Some(name)` -> `first_is(seen, name)` (Option<&Name>
 equality); `crate::Schema` -> the shim; `.map_err(|err| err.trace(def))` -> `.map_err(|err: CycleError<..>| -> (r: CycleError<..>) { err.trace(def) })`
-(parameter and result types spelled out).
+(parameter and result types spelled out, and `ensures` that the kind of error is kept); `seen.push(name)?` -> the `match .. { Err(e) => return Err(From::from(e)) }` it desugars to.
 NOT decided: that a cycle is REPORTED exactly when there is one (graph reachability; the seeded changes C14-2 / C15-1 are therefore missed).
 """
 IO = "crates/apollo-compiler/src/validation/input_object.rs"
@@ -37,7 +37,8 @@ impl<T> Clone for Node<T> {
     #[verifier::external_body]
     fn clone(&self) -> (r: Self) ensures r == *self { unimplemented!() }
 }
-pub struct InputValueDefinition { pub ty: Node<Type> }
+pub struct Value { pub x: u64 }
+pub struct InputValueDefinition { pub ty: Node<Type>, pub default_value: Option<Node<Value>> }
 pub mod ast { pub use super::{Type, InputValueDefinition}; }
 #[verifier::external_body]
 pub struct FieldsMap { x: u8 }
@@ -53,14 +54,19 @@ pub struct InputObjectType { pub name: Name, pub fields: FieldsMap }
 pub struct SchemaShim { pub x: u64 }
 pub mod crate_ { pub type Schema = super::SchemaShim; }
 impl SchemaShim {
+    /// the input object type with that name, if the name is defined and is an input object
+    pub uninterp spec fn input_object(&self, name: Name) -> Option<Node<InputObjectType>>;
     #[verifier::external_body]
-    pub fn get_input_object(&self, name: &Name) -> (r: Option<&Node<InputObjectType>>) { unimplemented!() }
+    pub fn get_input_object(&self, name: &Name) -> (r: Option<&Node<InputObjectType>>)
+        ensures match r { Some(o) => self.input_object(*name) == Some(*o), None => self.input_object(*name) is None }
+    { unimplemented!() }
 }
 pub struct RecursionLimitError {}
 pub enum CycleError<T> { Recursed(Vec<Node<T>>), Limit(RecursionLimitError) }
 impl<T> CycleError<T> {
+    // appends the node to a Recursed trace; the kind of error is kept
     #[verifier::external_body]
-    pub fn trace(self, node: &Node<T>) -> (r: Self) { unimplemented!() }
+    pub fn trace(self, node: &Node<T>) -> (r: Self) ensures (r is Recursed) == (self is Recursed), (r is Limit) == (self is Limit) { unimplemented!() }
 }
 impl<T> vstd::std_specs::convert::FromSpecImpl<RecursionLimitError> for CycleError<T> {
     open spec fn obeys_from_spec() -> bool { true }
@@ -96,6 +102,23 @@ impl RecursionGuard<'_> {
 // `seen.first() == Some(name)`
 #[verifier::external_body]
 pub fn first_is(seen: &RecursionGuard<'_>, name: &Name) -> (r: bool) ensures r == (seen.path@.len() > 0 && seen.path@[0] == *name) { unimplemented!() }
+
+// ---------------- specification: Circular References (https://spec.graphql.org/October2021/#sec-Input-Objects.Circular-References) ----------------
+// "If an Input Object references itself either directly or through referenced Input Objects, at least one of the fields in the chain of references must be
+//  either a nullable or a List type."  The chain: non-null singular fields whose type is an input object.  `path` = the chain so far, path[0] = the type being checked.
+/// following this field leads back to path[0] along names not yet on the path (within `fuel` more steps: the recursion limit)
+pub open spec fn field_closes_a_cycle(s: &SchemaShim, path: Seq<Name>, d: InputValueDefinition, fuel: nat) -> bool decreases fuel, 0int, 0int {
+    match *d.ty.0 {
+        Type::NonNullNamed(n) =>
+            if path.contains(n) { path.len() > 0 && path[0] == n }
+            else { s.input_object(n) is Some && fuel > 0 && object_closes_a_cycle(s, path.push(n), *(s.input_object(n)->0).0, 0, (fuel - 1) as nat) },
+        _ => false,
+    }
+}
+/// one of the fields from index i on does (written as a recursion over the index: a quantifier over a recursive call cannot be unfolded by the solver)
+pub open spec fn object_closes_a_cycle(s: &SchemaShim, path: Seq<Name>, o: InputObjectType, i: int, fuel: nat) -> bool decreases fuel, 1int, o.fields.values_seq().len() - i {
+    0 <= i < o.fields.values_seq().len() && (field_closes_a_cycle(s, path, *o.fields.values_seq()[i].0, fuel) || object_closes_a_cycle(s, path, o, i + 1, fuel))
+}
 pub struct FindRecursiveInputValue<'a> { pub schema: &'a crate_::Schema }
 /// how many more names may be pushed before `push` fails
 pub open spec fn room(g: &RecursionGuard<'_>) -> int { g.limit@ + 1 - g.path@.len() }
@@ -104,27 +127,40 @@ pub open spec fn room(g: &RecursionGuard<'_>) -> int { g.limit@ + 1 - g.path@.le
 W = "impl FindRecursiveInputValue<'_>"
 UNIT = {
     "name": "input_cycles",
-    "properties": ["C21"],
+    "properties": ["C21", "C14", "C15"],
     "parts": [
         PRELUDE,
         dict(file="crates/apollo-compiler/src/ast/mod.rs", kind="enum", name="Type", props=["C21"]),
+        # present so that code routed through them is judged (a seeded change adds `if def.is_required()`), not rejected as unknown
+        dict(file="crates/apollo-compiler/src/ast/impls.rs", kind="fn", name="is_non_null", container="Type", container_name="Type", wrap="impl Type", props=["C14", "C15"],
+             clauses=[("ensures", "is_non_null", "r == (self is NonNullNamed || self is NonNullList)")]),
+        dict(file="crates/apollo-compiler/src/ast/impls.rs", kind="fn", name="is_required", container="InputValueDefinition", container_name="InputValueDefinition", wrap="impl InputValueDefinition", props=["C14", "C15"],
+             clauses=[("ensures", "required", "r == ((*self.ty.0 is NonNullNamed || *self.ty.0 is NonNullList) && self.default_value is None)")]),
         dict(file=IO, kind="fn", name="input_value_definition", container="FindRecursiveInputValue<'_>", container_name="FindRecursiveInputValue", wrap=W, props=["C21"],
              rewrites=[("seen.first() == Some(name)", "first_is(seen, name)", 1),
-                       (".map_err(|err| err.trace(def))", ".map_err(|err: CycleError<ast::InputValueDefinition>| -> (r: CycleError<ast::InputValueDefinition>) { err.trace(def) })", "*")],
+                       # the language's own desugaring of `?` on an error of another type (Verus does not carry the converted value through `?`)
+                       ("seen.push(name)?", "(match seen.push(name) { Ok(__g) => __g, Err(__e) => return Err(CycleError::from(__e)) })", 1),
+                       (".map_err(|err| err.trace(def))", ".map_err(|err: CycleError<ast::InputValueDefinition>| -> (r: CycleError<ast::InputValueDefinition>) ensures (r is Recursed) == (err is Recursed) { err.trace(def) })", "*")],
              clauses=[("requires", "within_the_limit", "old(seen).path@.len() <= old(seen).limit@"),
                       ("ensures", "path_restored", "final(seen).path@ == old(seen).path@ && final(seen).limit@ == old(seen).limit@"),
+                      ("ensures", "no_error_means_no_cycle_through_this_field", "r is Ok ==> !field_closes_a_cycle(self.schema, old(seen).path@, *def.0, (old(seen).limit@ - old(seen).path@.len()) as nat)", ["C14", "C15"]),
+                      ("ensures", "a_reported_cycle_exists", "(r is Err && r->Err_0 is Recursed) ==> field_closes_a_cycle(self.schema, old(seen).path@, *def.0, (old(seen).limit@ - old(seen).path@.len()) as nat)", ["C14", "C15"]),
                       ("decreases", None, "old(seen).limit@ + 1 - old(seen).path@.len(), 0int")]),
         dict(file=IO, kind="fn", name="input_object_definition", container="FindRecursiveInputValue<'_>", container_name="FindRecursiveInputValue", wrap=W, props=["C21"], n_loops=1,
              rewrites=[("mut seen: RecursionGuard<'_>,", "seen0: RecursionGuard<'_>,", 1),      # alpha-renaming of a `mut` by-value parameter: `let mut seen = seen0;` is added at the start of the body
                        (") -> Result<(), CycleError<ast::InputValueDefinition>> {\n        for input_value", ") -> Result<(), CycleError<ast::InputValueDefinition>> {\n        let mut seen = seen0;\n        for input_value", 1),
                        ("for input_value in input_object.fields.values() {", "let mut __i: usize = 0; while __i < input_object.fields.len() { let input_value = input_object.fields.value_at(__i); __i += 1;", 1)],
              clauses=[("requires", "within_the_limit", "seen0.path@.len() <= seen0.limit@"),
+                      ("ensures", "no_error_means_no_cycle_through_this_object", "r is Ok ==> !object_closes_a_cycle(self.schema, seen0.path@, *input_object, 0, (seen0.limit@ - seen0.path@.len()) as nat)", ["C14", "C15"]),
+                      ("ensures", "a_reported_cycle_exists", "(r is Err && r->Err_0 is Recursed) ==> object_closes_a_cycle(self.schema, seen0.path@, *input_object, 0, (seen0.limit@ - seen0.path@.len()) as nat)", ["C14", "C15"]),
                       ("decreases", None, "seen0.limit@ + 1 - seen0.path@.len(), 1int")],
              loops=[dict(invariant=[("bounds", "__i <= input_object.fields.values_seq().len()"),
-                                    ("path_kept", "seen.path@ == seen0.path@ && seen.limit@ == seen0.limit@ && seen0.path@.len() <= seen0.limit@")],
+                                    ("path_kept", "seen.path@ == seen0.path@ && seen.limit@ == seen0.limit@ && seen0.path@.len() <= seen0.limit@"),
+                                    ("no_cycle_through_the_fields_so_far", "object_closes_a_cycle(self.schema, seen0.path@, *input_object, 0, (seen0.limit@ - seen0.path@.len()) as nat) == object_closes_a_cycle(self.schema, seen0.path@, *input_object, __i as int, (seen0.limit@ - seen0.path@.len()) as nat)", ["C14", "C15"])],
                          decreases="input_object.fields.values_seq().len() - __i")]),
         dict(file=IO, kind="fn", name="check", container="FindRecursiveInputValue<'_>", container_name="FindRecursiveInputValue", wrap=W, props=["C21"],
              rewrites=[("schema: &crate::Schema", "schema: &crate_::Schema", 1)],
-             clauses=[]),
+             clauses=[("ensures", "no_error_means_the_type_is_on_no_cycle", "r is Ok ==> !object_closes_a_cycle(schema, seq![input_object.name], *input_object, 0, 31)", ["C14", "C15"]),
+                      ("ensures", "a_reported_cycle_exists", "(r is Err && r->Err_0 is Recursed) ==> object_closes_a_cycle(schema, seq![input_object.name], *input_object, 0, 31)", ["C14", "C15"])]),
     ],
 }
